@@ -46,6 +46,17 @@ prop("C09",
      unit_ops={"hex4", "utf8enc"},
      assumptions=["the block structure of parse_string_raw/parse_string_escaped/parse_string_inplace is tied to the scalar decoders by the sweep (and by the generic block-scan theorem), not transcribed line by line"])
 
+prop("C03",
+     rule="generated well-formed documents with duplicates allowed (1/10 mutated: every driver must reject) x 11 parse drivers (in-place from_slice/from_str, copying parser as Vec element / struct field / map value / second stream document / Bytes carrier, use_rawnumber, utf8_lossy on valid text, clone) + alignment sweep of one document behind 0..69 spaces; canonical tree dump (kinds, order, duplicates, decoded strings, number class and bits) compared with the dump of the reference parse; hook Meta pack/unpack on random and boundary words",
+     unit_ops={"metapack"},
+     assumptions=["numbers are classified and valued by Spec/Num.v (decimal value, round half even); its agreement with Rust's parser is C07's subject"])
+prop("C06",
+     rule="generated documents (duplicates allowed): to_string / to_string_pretty / Display / to_vec of the parsed DOM; the text must denote the same tree as the source (dump equality incl. float bits, order, duplicates), be exactly the model's canonical compact / pretty form of its own parse (format_string spec escaper, separators, indentation), re-serialize to itself; raw-number mode reproduces every literal verbatim",
+     assumptions=["ryu/itoa print a number that parses back to the same value (checked per case through the dump, not proved)"])
+prop("C13",
+     rule="generated duplicate-free documents x up to 5 sub-values reached by get, plus every scalar literal directly: accessor string (type, bool, number class+bits, decoded string, raw number, is_* flags) of LazyValue (from get / serde / clone) and OwnedLazyValue (from LazyValue / serde / clone / to_lazyvalue) compared with the accessors of the reference parse of the raw text; verbatim serialization; Value::try_from; owned-lazy views walked; one mutation (push / replace / take) of an owned-lazy array with the clone taken before it",
+     assumptions=[])
+
 def classify_known(pid, case, known):
     """return the id of the recorded known finding this mismatch belongs to, or None"""
     for k in known:
